@@ -1,6 +1,7 @@
 package zz_verifsim
 
 import (
+	"strings"
 	"sort"
 	"fmt"
 
@@ -287,6 +288,36 @@ func (a *adversary) injectCorrupted(in Inject, target *Node, pm proto.Message) {
 	}
 }
 
+// padBitfields appends k zero bytes to every "Participants" byte field below m and returns how many it padded.
+func padBitfields(m protoreflect.Message, k int) int {
+	n := 0
+	m.Range(func(fd protoreflect.FieldDescriptor, v protoreflect.Value) bool {
+		switch {
+		case fd.Kind() == protoreflect.BytesKind && strings.EqualFold(string(fd.Name()), "participants") && !fd.IsList():
+			b := append(append([]byte{}, v.Bytes()...), make([]byte, k)...)
+			m.Set(fd, protoreflect.ValueOfBytes(b))
+			n++
+		case fd.IsMap():
+			if fd.MapValue().Kind() == protoreflect.MessageKind {
+				v.Map().Range(func(_ protoreflect.MapKey, mv protoreflect.Value) bool {
+					n += padBitfields(mv.Message(), k)
+					return true
+				})
+			}
+		case fd.IsList():
+			if fd.Kind() == protoreflect.MessageKind {
+				for i := 0; i < v.List().Len(); i++ {
+					n += padBitfields(v.List().Get(i).Message(), k)
+				}
+			}
+		case fd.Kind() == protoreflect.MessageKind:
+			n += padBitfields(v.Message(), k)
+		}
+		return true
+	})
+	return n
+}
+
 // corruptSigs flips one byte in every signature value below m and returns how many it spoiled.
 func corruptSigs(m protoreflect.Message) int {
 	n := 0
@@ -430,6 +461,18 @@ func (a *adversary) injectWire(in Inject) {
 		return
 	}
 	pm := newPB(in.Kind)
+	if in.Mode == "corrupt" && f.r.p(0.2) && len(f.pool[in.Kind]) > 0 {
+		// a genuine recorded message, valid in every respect, whose signer bit fields (BLS) carry trailing zero bytes
+		raw := f.pool[in.Kind][len(f.pool[in.Kind])-1-f.r.intn(min(len(f.pool[in.Kind]), 3))]
+		if proto.Unmarshal(raw, pm) == nil && padBitfields(pm.ProtoReflect(), 1+f.r.intn(3)) > 0 {
+			if buf, err := proto.Marshal(pm); err == nil {
+				w.fault("fuzz:padded-bit-field-" + in.Kind)
+				w.deliver(&Msg{fromID: hotstuff.ID(in.From), to: target, kind: in.Kind, wire: buf, forged: true}, in.From)
+				return
+			}
+		}
+		pm = newPB(in.Kind)
+	}
 	if in.Mode == "corrupt" {
 		a.injectCorrupted(in, target, pm)
 		return
